@@ -306,6 +306,10 @@ class AsyncSimStream(httpcore.AsyncNetworkStream):
 
 
 async def _gate(net, rec):
+    if getattr(net, "yield_in_ops", False) and not net.gated:
+        import anyio
+        await anyio.sleep(0)        # every network operation is a (cancellable) suspension point
+        return
     if not net.gated or rec["op"] in net.ungated_ops:
         return
     import anyio
